@@ -25,13 +25,16 @@ type SpecCtx struct {
 	at       *ssa.BasicBlock
 	phiOv    map[*ssa.Phi]string
 	bound    map[string]string
+	boundTyp map[string]types.Type
 }
 
 func (sc *SpecCtx) withBound(v, term string) *SpecCtx {
 	n := *sc
 	n.bound = map[string]string{}
+	n.boundTyp = map[string]types.Type{}
 	for k, x := range sc.bound {
 		n.bound[k] = x
+		n.boundTyp[k] = sc.boundTyp[k]
 	}
 	n.bound[v] = term
 	return &n
@@ -53,7 +56,7 @@ func (sc *SpecCtx) expand(x *Sx) string {
 func (sc *SpecCtx) lookup(name string) (specVal, bool) {
 	if sc.bound != nil {
 		if v, ok := sc.bound[name]; ok {
-			return specVal{v, nil}, true
+			return specVal{v, sc.boundTyp[name]}, true
 		}
 	}
 	if sc.names != nil {
@@ -246,12 +249,16 @@ func (sc *SpecCtx) eval(x *Sx) specVal {
 	case "let":
 		sub := sc
 		var bs []string
+		typs := map[string]types.Type{}
 		for _, b := range args[0].List {
 			v := b.List[0].Atom
-			bs = append(bs, fmt.Sprintf("(%s %s)", v, sc.expand(b.List[1])))
+			val := sc.eval(b.List[1])
+			typs[v] = val.typ
+			bs = append(bs, fmt.Sprintf("(%s %s)", v, val.term))
 		}
 		for _, b := range args[0].List {
 			sub = sub.withBound(b.List[0].Atom, b.List[0].Atom)
+			sub.boundTyp[b.List[0].Atom] = typs[b.List[0].Atom]
 		}
 		return specVal{fmt.Sprintf("(let (%s) %s)", strings.Join(bs, " "), sub.expand(args[1])), nil}
 	case "unchanged-old":
